@@ -327,6 +327,16 @@ def run(ctx):
     if sfail:
         fails.append({"kind": "spec-vs-oracle", "file": "coq-spec-vs-reference-evaluator (prepspec_run select vs preplib.ref_eval)",
                       "count_kept": len(sfail), "first": [{k: f[k] for k in ("text", "spec", "class")} for f in sfail[:3]]})
+    # extraction cross-check: a sample of the run evaluated by vm_compute inside Coq == the extracted executable
+    import coqcases
+    import treeio
+    pool = sorted({t for t, _tag in rnd if 0 < len(t) <= 160})
+    xs = [t for t, _tag in CORPUS] + ctx.rng.sample(pool, min(len(pool), 80 if ctx.quick else 300))
+    xlines = [P.model_stream(l)[0] for l in P.run_model(exe, "prepm", [treeio.text_line(t) for t in xs])]
+    xn, xf = coqcases.crosscheck("prep", xs, xlines, "C15")
+    ctx.cov["extraction_crosscheck_cases"] = xn
+    if xf:
+        fails.append(xf)
     vlib.broken_ties_to_violations(ctx, fails, bool(ofail))
 
     # ---- evidence
